@@ -134,11 +134,8 @@ func NewOwn(p *Program) *Own {
 				return
 			}
 			for _, a := range c.Common().Args {
-				switch v := a.(type) {
-				case *ssa.MakeClosure:
-					o.onceBodies[v.Fn.(*ssa.Function)] = true
-				case *ssa.Function:
-					o.onceBodies[v] = true
+				for _, f := range FuncValueTargets(a) {
+					o.onceBodies[f] = true
 				}
 			}
 		})
